@@ -61,6 +61,9 @@ structure Cls where
   target : Option Nat
   /-- declared with `__mixin__ = True` -/
   mixin : Bool := false
+  /-- `Attributes._subclasses` of a declared class: the classes whose class statement extends it, in order
+      (`none` = None). Customised variants find the list of their original through the `Attributes` chain. -/
+  subs : Option (List Nat) := none
   /-- hardware bounds checked by the class's own `validate_native` -/
   lo : Option Int
   hi : Option Int
@@ -113,6 +116,11 @@ inductive ColCopy where
   | shallow  -- `copy(...)` of the pair: the dict inside is shared with the class derived from
   deriving DecidableEq, Repr
 
+inductive SubsRule where
+  | classStatementsOnly  -- only a genuine class statement registers with the class it extends            (good)
+  | alsoVariants         -- every customised variant of a class that has a base is registered with that base as well
+  deriving DecidableEq, Repr
+
 inductive ProtCopy where
   | copied   -- `prot.type_attrs.copy()` is what the keywords are merged into                        (good)
   | shared   -- the keywords of every `customize(prot=p)` end up in the protocol's own dict
@@ -160,6 +168,7 @@ structure Facts15 where
   delayAppend : DelayOrder
   delayInsert : DelayOrder
   protCopy : ProtCopy
+  subsRule : SubsRule
   mixinOrder : MixinOrder
   /-- `type_attrs` of the protocol objects of a history -/
   prots : List Kw
